@@ -72,6 +72,20 @@ def bv_ok(self):
     return len(items) == len(self) and items == sorted(set(items)) and bool(self) == (len(items) > 0)
 
 
+_TIER = {}
+
+
+def prepare(scratch, env, tier):
+    _TIER["tier"] = tier
+
+
+def collect(scratch, recs, counters):
+    # thorough tier: the repository's own 273 tests run once more with these contracts switched on
+    if _TIER.get("tier") == "thorough":
+        from .. import suite
+        suite.run_suite("c34", scratch, recs, counters)
+
+
 def setup_worker(tier):
     import icontract
     import problog.util as U
